@@ -269,4 +269,11 @@ func init() {
 		"		return 0, w.wrapError(err)\n	}\n	dw, err := w.control.Authorize()\n", "		return 0, w.wrapError(err)\n	}\n	if !*w.cfg.Persist && series.Len() == 0 {\n		return 0, nil\n	}\n	dw, err := w.control.Authorize()\n", "C05.R1.authorize")
 	mut("C20", "frames are shed when the relay pipe is full", "cesium/writer_stream.go",
 		"		w.relay.Inlet() <- relayResponse{", "		select {\n		case w.relay.Inlet() <- relayResponse{}:\n		default:\n		}\n		w.relay.Inlet() <- relayResponse{", "C20.R7.blocking")
+	// ---------------- E14 (error flow)
+	mut("C02", "commit goes on after a failed index update when the file is being switched", "cesium/internal/domain/writer.go",
+		"	err := span.Error(f(ctx, ptr, shouldPersist))\n	if err != nil {", "	err := span.Error(f(ctx, ptr, shouldPersist))\n	if err != nil && !switchingFile {", "C02.ERR")
+	mut("C02", "zeroStamp ignores a failed search", "cesium/internal/index/domain.go",
+		"	startApprox, err := i.search(ref, r)\n	if err != nil {\n		return\n	}\n	readStamp := newStampReader()\n	if !startApprox.Exact() {\n		approx.Upper, err", "	startApprox, err := i.search(ref, r)\n	readStamp := newStampReader()\n	if !startApprox.Exact() {\n		approx.Upper, err", "C02.ERR")
+	mut("C05", "an invalid frame is written anyway after the first call", "cesium/writer_stream.go",
+		"	err := w.validateWrite(fr)\n	if err != nil {", "	err := w.validateWrite(fr)\n	if err != nil && w.numWriteCalls == 1 {", "C05.ERR")
 }
